@@ -616,7 +616,7 @@ func (e *Exec) applyContract(st *State, fr *Frame, ci *callInfo, c *FuncContract
 	} else {
 		e.usedContracts[c.Key] = true
 	}
-	pkg := fr.fn.Pkg.Pkg
+	pkg := e.pkgOfFrame(fr)
 	if ci.fn != nil && pkgOf(ci.fn) != nil && isRepoPkg(pkgOf(ci.fn)) {
 		pkg = pkgOf(ci.fn)
 	}
@@ -799,6 +799,24 @@ func (e *Exec) forcedInline(key string) bool {
 		}
 	}
 	return false
+}
+
+// pkgOfFrame: the types.Package a frame's function belongs to; synthetic
+// wrappers (bound methods, thunks) have none and take the package of the
+// function under verification.
+func (e *Exec) pkgOfFrame(fr *Frame) *types.Package {
+	if fr != nil && fr.fn != nil && fr.fn.Pkg != nil {
+		return fr.fn.Pkg.Pkg
+	}
+	if fr != nil && fr.fn != nil {
+		if p := pkgOf(fr.fn); p != nil {
+			return p
+		}
+	}
+	if e.fn != nil && e.fn.Pkg != nil {
+		return e.fn.Pkg.Pkg
+	}
+	return nil
 }
 
 func (e *Exec) newPathID() string {
